@@ -177,6 +177,32 @@ pub fn run(args: &Args, rep: &mut Report) {
             }
         }
     }
+    // real-world shapes: sample file and test-source literals, model fed with the parsed AST
+    let corpus = corpus();
+    rep.add("corpus_expressions_available", corpus.len() as u64);
+    for (i, text) in corpus.iter().enumerate() {
+        if (i as u64) % args.of.max(1) != args.worker {
+            continue;
+        }
+        let Ok(ast) = lib_parse(text) else { continue };
+        let mut r = Rng::new(args.seed, 0xc0c0, i as u64);
+        for hol in [HolSpec::None, HolSpec::Country("FR".into()), HolSpec::Synthetic("sparse".into())] {
+            if hol != HolSpec::None && !has_holiday_selector(&ast) {
+                continue;
+            }
+            let Ok(Ok(oh)) = guarded(|| OpeningHours::parse(text)) else { continue };
+            let oh = oh.with_context(hol.context());
+            let days = days_for(&ast, &hol, &mut r, 200, 100, if args.thorough() { 1500 } else { 400 });
+            rep.evaluations += 1;
+            match compare(&ast, &oh, &hol, &days, true, Some(rep)) {
+                Err(a) => rep.count(&format!("abstained.{}", a.0.replace(' ', "_"))),
+                Ok(None) => rep.count("corpus_cases_judged"),
+                Ok(Some(mm)) => {
+                    rep.violation("schedule_differs_from_semantics", format!("{text:?} [{}] (from the repository's sample/test sources): {}", hol.to_string(), mm.what), json!({"expr": text, "holidays": hol.to_string(), "day": mm.day.to_string()}), known::explained_by(&args.known, &ast));
+                }
+            }
+        }
+    }
     // thorough: single-selector expressions swept day by day over 1900..2100
     if args.thorough() {
         let n = args.cases(0, 600);
